@@ -47,6 +47,7 @@ func allProps() []*PropSpec {
 		propC05(),
 		propC17(),
 		propC02(),
+		propC12(),
 	}
 }
 
@@ -491,6 +492,31 @@ func propC02() *PropSpec {
 			js = append(js, jobsN("js", "VerifJSRename", []int{0}, "one function/arrow with two statements, with-statement symbolic")...)
 			js = append(js, jobsN("js", "VerifJSRenameChain", []int{0, 1}, "0: three nested functions with parameters; 1: four nested parameterless functions/arrows around one outer variable")...)
 			js = append(js, Job{Pkg: "js", Fn: "VerifJSEvalTwin", N: 0, ExpectFail: true, Desc: "vacuity twin"})
+			return js
+		},
+	}
+}
+
+func propC12() *PropSpec {
+	return &PropSpec{
+		ID:   "C12",
+		Rule: "one case = one feasible path AND schedule of the real wrappers ((*M).Reader, (*M).Writer, ResponseWriter, Middleware, MiddlewareWithError, Bytes, String, Minify) executed on the engine's cooperative goroutine model: input bytes, producer chunk sizes, consumer buffer sizes, the schedule choice at every go statement, the registry (literal / pattern), Content-Type, request path, Content-Length and explicit WriteHeader are symbolic; non-trivial = completes with a distinct symbolic output",
+		Assumptions: []string{"goroutines are modelled as coroutines that switch only at the blocking points of the modelled io.Pipe and sync.WaitGroup (and optionally right at the go statement); preemption inside non-blocking code is not modelled", "the registered minifier is a stub that reads all input, writes in several pieces, probes the writer with Write(nil) and fails on a 'z'", "http.ResponseWriter is a recording stub that sends the header on WriteHeader or on the first Write, as net/http does"},
+		Outside:     []string{"real preemptive schedules, the race detector", "net/http server internals", "the six real minifiers behind the wrappers (their chunk independence follows from parse.NewInput reading everything first, exercised by C14)", "inputs longer than n"},
+		Stubs:       []string{"io.Pipe / (*PipeReader) / (*PipeWriter) methods: harness model (synchronous rendezvous incl. zero-length writes)", "sync.WaitGroup: counter model", "mime.TypeByExtension: Go's built-in table for .html .css .js", "regexp: model of the two patterns of C15"},
+		Jobs: func(tier string) []Job {
+			var js []Job
+			q := tier == "quick"
+			pick := func(a, b []int) []int {
+				if q {
+					return a
+				}
+				return b
+			}
+			js = append(js, jobsN(".", "VerifEntryPoints", pick(rng(0, 2), rng(0, 3)), "Minify with chunking reader, Bytes, String, Reader wrapper with symbolic consumer buffers")...)
+			js = append(js, jobsN(".", "VerifWriterWrapper", pick(rng(0, 3), rng(0, 4)), "Writer wrapper: symbolic producer chunks, failing underlying writer, Close semantics")...)
+			js = append(js, jobsN(".", "VerifMiddleware", pick(rng(0, 2), rng(0, 3)), "Middleware / MiddlewareWithError / ResponseWriter: Content-Type vs path extension, Content-Length, WriteHeader")...)
+			js = append(js, Job{Pkg: ".", Fn: "VerifDispatchTwin", N: 0, ExpectFail: true, Desc: "vacuity twin"})
 			return js
 		},
 	}
